@@ -111,7 +111,8 @@ def torn_cases(evs, outs):
                     ob.append("HDead")
                     ev = ev[:-1]
                 res.append((ev, ob, {"structural": structural, "changed_pages": t["diff"], "written": tc["pages"],
-                                     "recover": tc["recover"], "new": t["new"], "internal": t["internal"]}))
+                                     "recover": tc["recover"], "new": t["new"], "internal": t["internal"],
+                                     "recovery_cut_at_page": tc.get("prelimit", 0)}))
             pev.append(("flush",))
             pob.append("HOut (%s)" % hist.cq_res(o["res"]))
         else:
@@ -186,6 +187,9 @@ def run(ctx):
                 "non-empty subset of the changed pages (or the only changed page) was written" % len(hists),
         "traces_validated_against_impl": len(inscope),
         "torn_images_in_scope": len(inscope), "torn_images_structural": len(struct_cases),
+        "images_whose_first_recovery_was_itself_cut_inside_its_flush": sum(1 for c in cases if c[2].get("recovery_cut_at_page")),
+        "recovery_cut_note": "for a part of the images a first recovery runs in a child process whose writes at or beyond "
+                             "page 1 / 3..5 are refused by the kernel (RLIMIT_FSIZE), then recovery runs again and is observed",
         "structural_images_not_recovering": len(known),
         "samples": [c[2] for c in cases[:: max(1, len(cases) // 4)]][:4],
     })
